@@ -1,7 +1,7 @@
 """C09 - most_specific mode picks the most specific matching rule, whatever the order.
 
 Exhaustive: every ordered sequence (= every subset in every permutation) of <= K distinct rules over a
-16-rule alphabet that varies priority, number of pattern functions, constraint kinds, pattern length,
+18-rule alphabet that varies priority, number of pattern functions, constraint kinds, pattern length,
 subcategory set/unset, categorising/tag-only, and contains two exact-tie pairs; x 18 transactions; through
 MerchantEngine.match(match_mode='most_specific') and get_all_rules/normalize_merchant(match_mode=...).
 The expected winner is computed from a rank key derived from the AST of each match expression.
@@ -15,7 +15,7 @@ from mc.checks import rules_common as R
 
 PROPERTY = "C09"
 LEVEL = "exploration"
-RULE = ("cases = every ordered sequence of 1..K distinct rules over a 16-rule alphabet plus every sequence of K+1 rules over its 12 core rules (K=3 quick, 4 thorough) "
+RULE = ("cases = every ordered sequence of 1..K distinct rules over an 18-rule alphabet plus every sequence of K+1 rules over its 12 core rules (K=3 quick, 4 thorough) "
         "(priority unset/0/10/90; 1 or 2 pattern functions; constraint kinds none/amount/amount+month/source; short/long patterns; "
         "subcategory set/unset; one tag-only rule; exact-tie pairs (contains vs regex with equal key, amount vs source constraint)); "
         "each on 18 transactions via engine.match and normalize_merchant in most_specific mode. "
@@ -47,6 +47,9 @@ RULES = [
     # a let: binding is local to its rule: r15 reads a name only r14 binds, so r15 never matches, wherever it stands
     {"name": "r14", "let": [("m", 'contains("UBER")')], "match": "m and amount > 0", "category": "M", "subcategory": "m"},
     {"name": "r15", "match": "m", "category": "N", "subcategory": "n", "priority": 95},
+    # the other quote character inside a pattern (its whole text counts towards the pattern length)
+    {"name": "r16", "match": 'contains("UBER\'S")', "category": "O", "subcategory": "o"},
+    {"name": "r17", "match": "contains('UBER\"S E')", "category": "P", "subcategory": "p"},
 ]
 PATTERN_FUNCS = {"contains", "regex", "normalized", "startswith", "fuzzy", "anyof"}
 KINDS = {"amount", "date", "month", "year", "day", "weekday", "source"}
@@ -72,14 +75,14 @@ def textual_key(rule):
     import re
     e = rule["match"]
     ncalls = sum(len(re.findall(r"\b" + f + r"\s*\(", e, re.I)) for f in PATTERN_FUNCS)
-    stripped = re.sub(r'"[^"]*"', '""', e).lower()
+    stripped = re.sub(r'"[^"]*"|\'[^\']*\'', '""', e).lower()
     kinds = sum(1 for k in list(KINDS) + ["field."] if re.search(r"(?<![a-z_])" + re.escape(k), stripped))
-    plen = sum(len(s) for s in re.findall(r'"([^"]*)"', e))
+    plen = sum(len(s) for s in re.findall(r'"([^"]*)"', e)) + sum(len(s) for s in re.findall(r"'([^']*)'", e))
     return (rule.get("priority", 50), ncalls, kinds, plen)
 
 
 KEYS = [ast_key(r) for r in RULES]
-TXNS = R.all_txns(descs=["UBER EATS", "UBER TRIP 77", "NETFLIX.COM 123"], amounts=[-50.0, 100.25])
+TXNS = R.all_txns(descs=["UBER EATS", "UBER TRIP 77", "NETFLIX.COM 123", "UBER'S EATS", 'UBER"S EATS'], amounts=[-50.0, 100.25])
 
 
 def setup(tier):
@@ -89,7 +92,7 @@ def setup(tier):
 
 
 def bounds(tier):
-    return {"max_rules_per_file": "3 over all 16 rules, 4 over the 12 core rules" if tier == "quick" else "4 over all 16 rules, 5 over the 12 core rules", "rules_alphabet": len(RULES), "transactions": len(TXNS),
+    return {"max_rules_per_file": "3 over all 18 rules, 4 over the 12 core rules" if tier == "quick" else "4 over all 18 rules, 5 over the 12 core rules", "rules_alphabet": len(RULES), "transactions": len(TXNS),
             "rank_keys": {r["name"]: k for r, k in zip(RULES, KEYS)}}
 
 
@@ -153,6 +156,9 @@ def check_csv(case):
     seq = tuple(case["csv"])
     rows = [{"pattern": CSV_FORM[i], "merchant": RULES[i]["name"], "category": RULES[i]["category"], "subcategory": RULES[i].get("subcategory", ""), "tags": ""}
             for i in seq]
+    if len(seq) % 2 == 0:
+        # a row whose pattern is not a valid regex never matches; it must not change how the other rows are ranked
+        rows.insert(len(rows) // 2, {"pattern": "*BAD(", "merchant": "Bad", "category": "Z", "subcategory": "z", "tags": ""})
     text = R.render_csv(rows)
     path = R.write_scratch("merchant_categories.csv", text)
     H.reset_state()
